@@ -35,7 +35,7 @@ CHECKS = {
     ),
     "C12": dict(
         category="translation_validation",
-        technique="differential symbolic execution of two generated encoders on shared z3 variables, unsat bytes-differ query",
+        technique="differential symbolic execution of two generated encoders (Python; C runtime, C -O little- and big-endian paths as clang IR) on shared z3 variables, unsat bytes-differ query; native replay through gcc-built code",
         text="For each pair (schema, rewritten schema) of F_rw both real generated Python encoders are executed symbolically on corresponding leaves; z3 proves equal length and equal bytes for all values, without any reference model; models are replayed natively on both.",
         note="Bounded family F_rw (11 rewrites x ~20 bases + seeded random bases, compositions of 2-3).",
         design="6/C12",
@@ -56,16 +56,16 @@ CHECKS = {
     ),
     "C09": dict(
         category="other",
-        technique="bounded symbolic execution (all paths) of real parser+linter+renderers over templates and token-level mutations; z3 regex inclusion for lexer rules; CrossHair on the escape loop",
+        technique="bounded symbolic execution (all paths) of real parser+linter+renderers over templates and token-level mutations; z3 regex inclusion and repetition-ambiguity queries for the lexer's token regexes; CrossHair on the escape loop; watchdog + real CLI for hangs",
         text="Kernel of totality: (a) every C08 template and constant-expression shape is explored along all paths for all values of its numeric holes, then linted and rendered by the real C/Go/Python renderers on accepting paths; (c) single token-level mutations (insert/replace/delete/truncate at every position over a 49-entry vocabulary with symbolic integer literals and widths) of four base schemas (thorough: pairs, free sequences); (d) edge-shaped schemas rendered for all values of their constants; (b) z3 proves by regex inclusion that every text a lexer rule can match satisfies its action's precondition, CrossHair confirms the escape loop. Only ParserError/OSError/RendererError may end a path; anything else is replayed through the real CLI (traceback) first.",
-        note="Kernel only: arbitrary text (byte-level mutations) is outside (lexing is C code); token types and positions are enumerated, numeric values are the solver's; never-hangs is bounded by per-run budgets. Known finding D3 (empty enum as Python field).",
+        note="Kernel only: arbitrary text (byte-level mutations) is outside (lexing is C code); token types and positions are enumerated, numeric values are the solver's; never-hangs: exponential backtracking of the token regexes is decided by an ambiguity query, everything else only within the time limits (a template that exceeds 120 s is replayed through the real CLI under 20 s). Known finding D3 (empty enum as Python field).",
         design="6/C09",
     ),
     "C13": dict(
         category="other",
-        technique="symbolic execution of real parser+renderers on expression templates (z3 Int): value term == independent evaluation, emitted literal term == value; CrossHair for string emission",
+        technique="symbolic execution of real parser+renderers on expression templates (z3 Int, float quotient model L_fpq): value term == independent evaluation, emitted literal term == value; symbolic backtracking interpretation of the string-token regex over symbolic characters (where a literal ends); CrossHair for string emission (+ a concrete Unicode sweep)",
         text="All constant-expression shapes with <= 3 operators (flat and every parenthesisation; decimal/hex/referenced/imported operands, symbolic values) go through the real lexer+parser; z3 proves the constant's value equals an independent precedence-climbing evaluation, that the same term arrives as array capacity and max_bytes, and that the literal the real C/Go/Python renderers emit is the constant's own term; booleans by a literal table; strings by CrossHair over the real escape loop and format_str_value with a reference literal decoder.",
-        note="`/` asserted where dividend >= 0 and divisor > 0; string bounds 3-5 characters over printable ASCII + tab/CR/LF; decimal rendering itself is Python's str(int).",
+        note="`/` asserted where dividend >= 0 and divisor > 0; string emission: CrossHair 3-4 characters over printable ASCII + tab/CR/LF, beyond that only a concrete sweep of 46 code points x 5 contexts; token extent: opening quote + <= 9 (thorough 13) symbolic characters; decimal rendering itself is Python's str(int).",
         design="6/C13",
     ),
     "C11": dict(
@@ -119,9 +119,9 @@ CHECKS = {
     ),
     "C10": dict(
         category="other",
-        technique="Python AST of the real formatter methods -> z3 sequence terms; pairwise injectivity / import-target equality queries; sat models compiled and confirmed by gcc / CPython",
+        technique="Python AST of the real formatter methods -> z3 sequence terms; pairwise injectivity / import-target equality queries; sat models compiled and confirmed by gcc / CPython; symbolic execution of the real BlockComposition.render over symbolic block kinds (closer nesting); plus labelled concrete observations over the schema family (gcc / clang++ layout, CPython import, Go static pass)",
         text="Kernel with a value quantifier: (1) the C name templates (array/message/alias processors and JSON formatters, field-descriptor initialiser, Encode/Decode/Json, user typedef names) are read from the current sources and translated to z3 string terms; for every pair z3 decides whether two distinct sources can yield the same identifier (identifiers <= 8 chars, numbers 1..255); (2) the import statement of C and Python names exactly the file the compiler generates, for every proto name and file stem. Each sat model becomes a schema that is compiled with the real compiler and gcc/CPython before it is reported.",
-        note="Only these two clauses are claimed; compiles-as-C / C++ inclusion / Python import / Go well-formedness / declaration order / -F / reserved words are value-independent observations of single artefacts and are not claimed (they are exercised incidentally as preconditions of the other checks). Known findings D9, D9b (template pairs as cause keys).",
+        note="Solver-decided: name injectivity, import target, closer nesting. compiles-as-C / C++ inclusion with equal layout / Python import / Go well-formedness are value-independent observations of single artefacts: no solver verdict exists for them; they are OBSERVED over the schema family as separate, labelled evidence parts (cxx-header, py-import, go-static). Reserved words are outside. Known findings D9, D9b (template pairs as cause keys, second key for collisions that survive letter-ending names), D12 (empty struct: sizeof 0 in C, 1 in C++).",
         design="6/C10", engine="tmplsym",
     ),
     "C16": dict(
@@ -133,16 +133,16 @@ CHECKS = {
     ),
     "C15": dict(
         category="other",
-        technique="differential symbolic interpretation of generated C with/without c.name_prefix (z3 BV) + z3 string equality of the API-name templates read from the sources",
+        technique="differential symbolic interpretation of generated C with/without c.name_prefix (z3 BV) + z3 string equality of the API-name templates read from the sources; plus a labelled concrete observation: an independent reference of the documented scheme (letters-only names) against the real outputs of the family",
         text="Kernel only (the clauses with a value quantifier): with c.name_prefix set, the C encoder/decoder found under their documented prefixed names meet the same reference bytes for all values, the offsetof/sizeof constants are identical, the size macro carries the upper-case prefix, and the Python and Go outputs are textually unchanged; the templates of Encode/Decode/Json{Name} and of the output file names are translated from the current sources to z3 strings and proved equal to the documented scheme for every name.",
-        note="NOT claimed: that every definition appears under exactly its schema name, Go field/JSON-tag naming, UPPER_SNAKE macro spelling, nested-name joining -- produced by character-inspecting code (case converters, regexes) that neither CrossHair nor z3 sequences can exhaust beyond 3-character strings here, and observed as existence of identifiers.",
+        note="Not solver-decided: that every definition appears under exactly its schema name, Go field/JSON-tag naming, UPPER_SNAKE macro spelling, nested-name joining -- produced by character-inspecting code (case converters, regexes) that neither CrossHair nor z3 sequences can exhaust beyond 3-character strings here; these are OBSERVED (part documented-names) for names made of letters only over the family, plain and with c.name_prefix.",
         design="6/C15", engine="llsym+tmplsym",
     ),
     "C18": dict(
         category="other",
-        technique="symbolic execution of the real compiler over a compilation HISTORY (A, B, A in one run, z3 Int holes): first and third output identical as text + terms",
+        technique="symbolic execution of the real compiler over a compilation HISTORY (A, B, A in one run with a new Parser each, z3 Int holes, both language orders, render/lint/render): outputs identical as text + terms, first output == fresh-process output; plus a labelled concrete observation of the process-level clauses (hash seed, directories, paths, -q) through the real CLI",
         text="Kernel only: the one clause with a value quantifier, `independent of whether other schemas were compiled earlier in the same process` (and, with C20d, of whether linting is enabled). In one symbolic run the real parser+linter+renderers compile schema A, then a schema B that re-uses A's names with other values / marks / constant kinds, then A again; for all values of the holes of A and B the first and third rendering of A (C header, C source, Go, Python) must be the same text with the same terms for every symbolic literal. A difference is confirmed natively (one process compiling A, B, A).",
-        note="NOT claimed: independence of the process, PYTHONHASHSEED, working/output directory, relative vs absolute paths -- none is an input that can be made symbolic (the hash seed is fixed before the interpreter starts; id()-based hashing and dict order are properties of the runtime); deciding them means re-running the compiler, i.e. enumerating concrete runs.",
+        note="Not solver-decided, only observed on 12 runs x 3 languages of one schema: independence of the process, PYTHONHASHSEED, working/output directory, relative vs absolute paths -- none is an input that can be made symbolic (the hash seed is fixed before the interpreter starts; id()-based hashing and dict order are properties of the runtime); deciding them means re-running the compiler, i.e. enumerating concrete runs.",
         design="6/C18",
     ),
 }
